@@ -192,6 +192,11 @@ func (f Frame) payloadOffset() int {
 }
 
 func (f *Frame) setPayloadLength(n int) *Frame {
+	if len(*f) < frameMaxHeaderLength {
+		// A pooled frame keeps the length of its previous use, which can be shorter than the largest header.
+		*f = util.ExtendSlice(*f, frameMaxHeaderLength)
+	}
+
 	(*f)[1] &= (1 << 7)
 
 	if n > (1<<16 - 1) {
